@@ -263,7 +263,8 @@ def cal_probe_pipeline(case):
     return pyx.make_pipeline({"charge_generation": [
         {"name": "cal", "func": "obsprobes.level",
          "arguments": {"level": 1.0, "tilt": 0.0, "delay_ms": 1.0,
-                       "noise": 0.25 if case["pipeline_seed"] is not None else 0.0}}]})
+                       "noise": 0.25 if case["pipeline_seed"] is not None else 0.0,
+                       "slow": [list(x) for x in case.get("slow", [])], "slow_ms": case.get("slow_ms", 0.0)}}]})
 
 
 def run_calibration(case, scheduler, workers, chunk, parallel_islands):
@@ -330,6 +331,35 @@ def gen_cal_case(rng):
         rng.choice(["unconnected", "unconnected", "unconnected", "ring", "fully_connected"])
     return {"target": rng.choice([3.0, 7.5, 11.25]), "pygmo_seed": rng.randrange(1, 100000),
             "pipeline_seed": rng.choice([None, rng.randrange(1, 1000)]), "islands": islands, "topology": topology}
+
+
+def check_island_order(ck, rng):
+    import obsprobes
+
+    cc = {"target": rng.choice([3.0, 7.5, 11.25]), "pygmo_seed": rng.randrange(1, 100000), "pipeline_seed": None,
+          "islands": rng.choice([3, 4]), "topology": "unconnected"}
+    obsprobes.reset()
+    base = run_calibration(cc, "synchronous", None, None, False)  # islands created one after the other
+    first = [(r[1], r[2]) for r in obsprobes.LOG if r[0] == "level"][:8]  # = initial population (size 8) of island 0
+    ck.case({"calibration": cc, "cfg": "sequential-island-creation"}, nontrivial="error" not in base, stream="calibration-islands")
+    if "error" in base:
+        ck.violation("C07:calibration:run-fails", f"calibration fails: {base['msg']}", {"calibration": cc, "cfg": ["synchronous", None, None, False]})
+        return
+    slow = dict(cc, slow=[list(x) for x in first], slow_ms=40.0)
+    for cfg in (("threads", 4, None, True), ("synchronous", None, 3, True)):
+        obsprobes.reset()
+        res = run_calibration(slow, *cfg)
+        ck.case({"calibration": slow, "cfg": cfg}, nontrivial="error" not in res, stream="calibration-islands")
+        ck.count(f"calibration-islands:{cfg[0]}:first-island-delayed")
+        if "error" in res:
+            ck.violation("C07:calibration:run-fails", f"calibration fails under {cfg}: {res['msg']}",
+                         {"calibration": slow, "cfg": list(cfg), "impl": res})
+        elif res != base:
+            ck.violation("C07:calibration:outcome-depends-on-island-creation-order",
+                         f"{cc['islands']} unconnected islands, fixed seeds: the per-island champions with parallel island creation "
+                         f"({cfg}, the first island's initial evaluations delayed) differ from those with sequential creation",
+                         {"calibration": slow, "cfg": list(cfg), "base_cfg": ["synchronous", None, None, False],
+                          "impl": res, "base": base})
 
 
 CAL_CONFIGS = [("synchronous", None, None, False), ("threads", 1, 1, True), ("threads", 4, 3, True),
@@ -414,7 +444,11 @@ def body(ck: common.Check):
             ck.disagreement("assembly", case, list(range(n)), ans.get("assembled"))
     for _ in range(2 if quick else 12):
         check_lazy_interleaving(ck, rng)
-    # calibration clause
+    # calibration clause, directed: the FIRST-created island is made to finish its creation LAST (its initial candidates —
+    # read from a run with sequential island creation — are evaluated slowly), three or four unconnected islands, fixed
+    # seeds: island i of the result must still be the island built from seed i
+    for i in range(2 if quick else 8):
+        check_island_order(ck, rng)
     ncal = 2 if quick else 12
     for i in range(ncal):
         cc = gen_cal_case(rng)
@@ -445,7 +479,9 @@ def body(ck: common.Check):
                "synchronous, threads×{1,2,4,16} (rotating in quick, all in thorough) and processes×3 (every 6th/10th case); "
                "values joined by label (pixel bucket, and the image bucket when a swept ADC resolution changes its dtype), output "
                "files matched with the model's tasks; two lazy results of one Observation computed after both were set up; tiny seeded calibrations (sade, 1-3 islands, "
-               "three topologies) under schedulers × DaskBFE chunk sizes × island creation parallel/sequential; "
+               "three topologies) under schedulers × DaskBFE chunk sizes × island creation parallel/sequential; directed: 3-4 unconnected "
+               "islands whose first-created island is forced to finish creation last (its initial candidates evaluated slowly), "
+               "per-island champions compared with sequential creation; "
                "non-trivial = parallel run with at least two combinations")
     ck.assumptions = [
         "PARTIAL: the theorem assumes task purity (each run is a function of the base configuration and its own parameters: "
@@ -467,7 +503,7 @@ def replay(path):
     r = rp["replay"]
     if "calibration" in r:
         cc = r["calibration"]
-        a = run_calibration(cc, *CAL_CONFIGS[0])
+        a = run_calibration(dict(cc, slow=[], slow_ms=0.0), *tuple(r.get("base_cfg", CAL_CONFIGS[0])))
         b = run_calibration(cc, *r["cfg"])
         bad = "error" in b or a != b
         print("REPRODUCED: calibration outcome differs / fails" if bad else "not reproduced (property holds on this input)")
